@@ -163,7 +163,22 @@ def make(oid, op1, cross, tiers=("quick", "thorough")):
                 OPS[op1](other)
             else:
                 OPS[op1](g)
-            got = OPS[name2](g)
+            try:
+                got = OPS[name2](g)
+            except (sc.Unsupported, sc.Inconclusive, sc.PathBudget):
+                raise
+            except Exception as ex:      # the library's own exception: does the same read succeed on a fresh grid?
+                w.restore_constants()
+                try:
+                    OPS[name2](build(lon, lat))
+                    fresh_ok = True
+                except (sc.Unsupported, sc.Inconclusive, sc.PathBudget):
+                    raise
+                except Exception:
+                    fresh_ok = False
+                ctx.prove(f"{name2} after {op1}{' on another grid' if cross else ''}: works whenever it works on a fresh grid", not fresh_ok,
+                          note=f"raised {type(ex).__name__}: {str(ex)[:120]}")
+                return
             changed = w.module_constants_changed()
             ctx.prove("no call alters the library's module-level constants", not changed, note=str(changed))
             w.restore_constants()
